@@ -185,6 +185,9 @@ class Lib:
         S.append((path(r"^std::iter::Iterator::zip$"), self.iter_zip))
         S.append((path(r"^<std::iter::Zip<A, B> as std::iter::Iterator>::next$"), self.zip_next))
         S.append((path(r"^<std::iter::Zip<A, B> as std::iter::Iterator>::(all|any)$|^std::iter::Iterator::(all|any)$"), self.zip_all_any))
+        S.append((path(r"^core::slice::<impl \[T\]>::windows$"), self.slice_windows))
+        S.append((path(r"^<std::slice::Windows<'a, T> as std::iter::Iterator>::next$"), self.windows_next))
+        S.append((path(r"^<std::slice::Windows<'a, T> as std::iter::Iterator>::(all|any)$|^std::iter::Iterator::(all|any)$"), self.windows_all_any))
         S.append((path(r"^core::str::<impl str>::chars$"), self.str_chars))
         S.append((path(r"^<std::str::Chars<'a> as std::iter::Iterator>::next$"), self.chars_next))
         S.append((path(r"^std::vec::Vec::<T, A>::remove$"), self.vec_remove))
@@ -426,6 +429,73 @@ class Lib:
                 return step(it2, st2)
 
             return CallThen(body, [Ref(("H", fcell.id), ()), pair], then)
+
+        return step(it, st)
+
+    # `slice.windows(n)`: an AIter over the window start positions (role ("windows", n)); each window is handed out as a
+    # reference to a fresh exact copy of its elements (windows are shared borrows: nothing can be written through them)
+    def slice_windows(self, it, st, inst, args, call):
+        try:
+            oid = _obj_of(it, st, args[0], "windows")
+        except Undecided:
+            return NotImplemented
+        m = st.heap[oid]
+        if not (isinstance(m, AVec) and isinstance(args[1], Conc) and args[1].v > 0):
+            return NotImplemented
+        return st.new_obj(AIter(oid, 0, max(0, len(m.items) - args[1].v + 1), role=("windows", args[1].v)))
+
+    def _awin(self, it, st, ref):
+        iid, a = self._aiter(it, st, ref)
+        if a is not None and isinstance(a.role, tuple) and a.role[0] == "windows":
+            return iid, a
+        return None, None
+
+    def _window(self, st, iid):
+        a = st.heap[iid]
+        if a.pos >= a.end:
+            return None
+        st.heap[iid] = AIter(a.vec, a.pos + 1, a.end, a.role)
+        items = st.heap[a.vec].items[a.pos:a.pos + a.role[1]]
+        w = st.new_obj(AVec(tuple(items), "window"))
+        return Ref(("H", w.id), ())
+
+    def windows_next(self, it, st, inst, args, call):
+        iid, a = self._awin(it, st, args[0])
+        if a is None:
+            return NotImplemented
+        rty = ret_ty(it, call)
+        w = self._window(st, iid)
+        return mk_none(rty) if w is None else mk_some(rty, w)
+
+    def windows_all_any(self, it, st, inst, args, call):
+        from .absint import CallThen
+        iid, a = self._awin(it, st, args[0])
+        if a is None:
+            return NotImplemented
+        is_all = inst["path"].endswith("::all")
+        body = None
+        for a_ in inst.get("args", []):
+            if it.p.types[a_]["k"] == "closure":
+                body = closure_instance(it.p, a_)
+        if body is None:
+            raise Undecided("cannot identify the closure passed to %s" % inst["name"][:80])
+        fcell = st.new_obj(args[1])
+
+        def step(it_, st_):
+            w = self._window(st_, iid)
+            if w is None:
+                return TRUE if is_all else FALSE
+
+            def then(it2, st2, rv):
+                if not isinstance(rv, Conc):
+                    raise Undecided("closure of %s returned %r" % ("all" if is_all else "any", rv))
+                if is_all and rv.v == 0:
+                    return FALSE
+                if not is_all and rv.v == 1:
+                    return TRUE
+                return step(it2, st2)
+
+            return CallThen(body, [Ref(("H", fcell.id), ()), w], then)
 
         return step(it, st)
 
